@@ -2,6 +2,7 @@
 word_id_table.rs: per function, index expressions in source order, unwrap calls, narrowing casts."""
 import re
 import facts as F
+import sitekeys as SK
 
 TARGETS = [
     ("sudachi/src/analysis/node.rs", ["split", "next", "concat_nodes", "concat_oov_nodes"]),
@@ -92,6 +93,7 @@ def cast_exprs(body):
 def gen():
     out = [F.HEADER]
     rows = []
+    krows = []
     for rel, fns in TARGETS:
         t = F.strip_comments(F.src(rel))
         t = strip_items(t, r"#\[cfg\(test\)\]")
@@ -99,10 +101,13 @@ def gen():
         t = re.sub(r'"(?:[^"\\]|\\.)*"', '""', t)
         for fn in fns:
             body = re.sub(r"#!?\[[^\]]*\]", "", F.fn_body(t, fn, rel))
+            krows.append(("%s:%s" % (rel.replace("sudachi/src/", ""), fn), SK.keys(index_exprs(body), len(re.findall(r"\.unwrap\(\)", body)), len(re.findall(r"\bget_unchecked(?:_mut)?\b", body)), cast_exprs(body))))
             rows.append('("%s", "%s", [%s], %d%%N, %d%%N, [%s])' % (
                 rel.replace("sudachi/src/", ""), fn, "; ".join('"%s"' % x for x in index_exprs(body)),
                 len(re.findall(r"\.unwrap\(\)", body)), len(re.findall(r"\bget_unchecked(?:_mut)?\b", body)),
                 "; ".join('"%s"' % x for x in cast_exprs(body))))
     out.append("(* (file, function, index expressions in source order, unwrap calls, get_unchecked calls, narrowing casts) *)\n")
     out.append("Definition more_fns : list (string * string * list string * N * N * list string) :=\n  [ %s ].\n" % ";\n    ".join(rows))
+    out.append("(* the same constructs as keys (gen/sitekeys.py): what the one-directional obligation C03_fact_more_sites compares *)\n")
+    out.append("Definition more_site_keys : list (string * list string) :=\n  [ %s ].\n" % SK.coq_rows(krows))
     return "".join(out)
